@@ -2,6 +2,7 @@ package main
 
 import (
 	"crypto/elliptic"
+	"fmt"
 	"math/big"
 
 	"github.com/cloudflare/circl/oprf"
@@ -28,7 +29,46 @@ type target struct {
 	Seeds []bx.Seed
 }
 
+// boundaryScalars: encodings (of the given width) of the values at which range checks flip.
+func boundaryScalars(n *big.Int, width int) [][]byte {
+	var out [][]byte
+	one := big.NewInt(1)
+	top := new(big.Int).Lsh(one, uint(8*width))
+	for _, v := range []*big.Int{big.NewInt(0), one, new(big.Int).Sub(n, one), new(big.Int).Set(n), new(big.Int).Add(n, one), new(big.Int).Sub(top, one), new(big.Int).Rsh(n, 1)} {
+		b := make([]byte, width)
+		v.FillBytes(b)
+		out = append(out, b)
+	}
+	return out
+}
+
+func derInt(b []byte) []byte {
+	for len(b) > 1 && b[0] == 0 {
+		b = b[1:]
+	}
+	if b[0]&0x80 != 0 {
+		b = append([]byte{0}, b...)
+	}
+	return append([]byte{0x02, byte(len(b))}, b...)
+}
+
 func targets(w *bx.World) []target {
+	// boundary (r, s) pairs for every consumer of a peer-supplied ECDSA signature
+	n384 := elliptic.P384().Params().N
+	var rawPairs, derPairs, reqPairs []bx.Seed
+	honestR, honestS := w.Req3.Signature[:48], w.Req3.Signature[48:]
+	sc := append(boundaryScalars(n384, 48), honestR, honestS)
+	for i, r := range sc {
+		for j, s := range sc {
+			name := fmt.Sprintf("rs-%d-%d", i, j)
+			raw := append(append([]byte{}, r...), s...)
+			rawPairs = append(rawPairs, bx.Seed{Name: name, Msg: raw, Plain: true})
+			body := append(derInt(r), derInt(s)...)
+			derPairs = append(derPairs, bx.Seed{Name: name, Msg: append([]byte{0x30, byte(len(body))}, body...), Plain: true})
+			req := append(append([]byte{}, w.O3.Request[:len(w.O3.Request)-96]...), raw...)
+			reqPairs = append(reqPairs, bx.Seed{Name: name, Msg: req, Plain: true})
+		}
+	}
 	p384 := elliptic.P384()
 	var ts []target
 	add := func(t target) { ts = append(ts, t) }
@@ -36,7 +76,7 @@ func targets(w *bx.World) []target {
 	add(target{Name: "tokens.UnmarshalTokenChallenge", Run: func(in []byte) bool {
 		_, err := tokens.UnmarshalTokenChallenge(in)
 		return err == nil
-	}, Seeds: []bx.Seed{{"challenge", w.Challenge, []bx.Field{{0, 2}, {2, 2}, {18, 1}, {51, 2}}}}})
+	}, Seeds: []bx.Seed{{Name: "challenge", Msg: w.Challenge, Fields: []bx.Field{{0, 2}, {2, 2}, {18, 1}, {51, 2}}}}})
 
 	add(target{Name: "type1.UnmarshalPrivateToken+Verify", Step: true, Run: func(in []byte) bool {
 		t, err := type1.UnmarshalPrivateToken(in)
@@ -44,22 +84,22 @@ func targets(w *bx.World) []target {
 			return false
 		}
 		return w.W1.Issuer.Verify(t) == nil
-	}, Seeds: []bx.Seed{{"token1", w.O1.Tokens[0], []bx.Field{{0, 2}}}}})
+	}, Seeds: []bx.Seed{{Name: "token1", Msg: w.O1.Tokens[0], Fields: []bx.Field{{0, 2}}}}})
 	add(target{Name: "type5.UnmarshalBatchedPrivateToken+Verify", Step: true, Run: func(in []byte) bool {
 		t, err := type5.UnmarshalBatchedPrivateToken(in)
 		if err != nil {
 			return false
 		}
 		return w.W5.Issuer.Verify(t) == nil
-	}, Seeds: []bx.Seed{{"token5", w.O5.Tokens[0], []bx.Field{{0, 2}}}}})
+	}, Seeds: []bx.Seed{{Name: "token5", Msg: w.O5.Tokens[0], Fields: []bx.Field{{0, 2}}}}})
 	add(target{Name: "type2.UnmarshalToken", Run: func(in []byte) bool {
 		_, err := type2.UnmarshalToken(in)
 		return err == nil
-	}, Seeds: []bx.Seed{{"token2", w.O2.Tokens[0], []bx.Field{{0, 2}}}}})
+	}, Seeds: []bx.Seed{{Name: "token2", Msg: w.O2.Tokens[0], Fields: []bx.Field{{0, 2}}}}})
 	add(target{Name: "type3.UnmarshalToken", Run: func(in []byte) bool {
 		_, err := type3.UnmarshalToken(in)
 		return err == nil
-	}, Seeds: []bx.Seed{{"token3", w.O3.Tokens[0], []bx.Field{{0, 2}}}}})
+	}, Seeds: []bx.Seed{{Name: "token3", Msg: w.O3.Tokens[0], Fields: []bx.Field{{0, 2}}}}})
 
 	add(target{Name: "type1.Request.Unmarshal+Evaluate", Step: true, Run: func(in []byte) bool {
 		r := new(type1.BasicPrivateTokenRequest)
@@ -69,7 +109,7 @@ func targets(w *bx.World) []target {
 		_ = r.Marshal()
 		_, err := w.W1.Issuer.Evaluate(r)
 		return err == nil
-	}, Seeds: []bx.Seed{{"request1", w.O1.Request, []bx.Field{{0, 2}, {2, 1}}}}})
+	}, Seeds: []bx.Seed{{Name: "request1", Msg: w.O1.Request, Fields: []bx.Field{{0, 2}, {2, 1}}}}})
 	add(target{Name: "type2.Request.Unmarshal+Evaluate", Step: true, Run: func(in []byte) bool {
 		r := new(type2.BasicPublicTokenRequest)
 		if !r.Unmarshal(in) {
@@ -78,7 +118,7 @@ func targets(w *bx.World) []target {
 		_ = r.Marshal()
 		_, err := w.W2.Issuer.Evaluate(r)
 		return err == nil
-	}, Seeds: []bx.Seed{{"request2", w.O2.Request, []bx.Field{{0, 2}, {2, 1}}}}})
+	}, Seeds: []bx.Seed{{Name: "request2", Msg: w.O2.Request, Fields: []bx.Field{{0, 2}, {2, 1}}}}})
 	add(target{Name: "type5.Request.Unmarshal+Evaluate", Step: true, Run: func(in []byte) bool {
 		r := new(type5.BatchedPrivateTokenRequest)
 		if !r.Unmarshal(in) {
@@ -87,7 +127,7 @@ func targets(w *bx.World) []target {
 		_ = r.Marshal()
 		_, err := w.W5.Issuer.Evaluate(r)
 		return err == nil
-	}, Seeds: []bx.Seed{{"request5", w.O5.Request, []bx.Field{{0, 2}, {2, 1}, {3, bx.VarintWidth(w.O5.Request[3:])}}}}})
+	}, Seeds: []bx.Seed{{Name: "request5", Msg: w.O5.Request, Fields: []bx.Field{{0, 2}, {2, 1}, {3, bx.VarintWidth(w.O5.Request[3:])}}}}})
 	add(target{Name: "type3.Request.Unmarshal+VerifyRequest", Step: true, Run: func(in []byte) bool {
 		r := new(type3.RateLimitedTokenRequest)
 		if !r.Unmarshal(in) {
@@ -96,11 +136,11 @@ func targets(w *bx.World) []target {
 		_ = r.Marshal()
 		att := type3.NewRateLimitedAttester(px.NewMemCache())
 		return att.VerifyRequest(*r, w.A3.Blind, w.O3.ClientKey, w.A3.AnonOrigin) == nil
-	}, Seeds: []bx.Seed{{"request3", w.O3.Request, []bx.Field{{0, 2}, {83, 2}}}}})
+	}, Seeds: append([]bx.Seed{{Name: "request3", Msg: w.O3.Request, Fields: []bx.Field{{0, 2}, {83, 2}}}}, reqPairs...)})
 	add(target{Name: "type3.Issuer.Evaluate", Step: true, Run: func(in []byte) bool {
 		_, _, err := w.W3.Issuer.Evaluate(in)
 		return err == nil
-	}, Seeds: []bx.Seed{{"request3", w.O3.Request, []bx.Field{{0, 2}, {83, 2}}}}})
+	}, Seeds: append([]bx.Seed{{Name: "request3", Msg: w.O3.Request, Fields: []bx.Field{{0, 2}, {83, 2}}}}, reqPairs...)})
 	add(target{Name: "type3.InnerTokenRequest.Unmarshal", Run: func(in []byte) bool {
 		r := new(type3.InnerTokenRequest)
 		ok := r.Unmarshal(in)
@@ -108,31 +148,31 @@ func targets(w *bx.World) []target {
 			_ = r.Marshal()
 		}
 		return ok
-	}, Seeds: []bx.Seed{{"inner", w.Inner, []bx.Field{{0, 1}, {257, 2}}}}})
+	}, Seeds: []bx.Seed{{Name: "inner", Msg: w.Inner, Fields: []bx.Field{{0, 1}, {257, 2}}}}})
 	add(target{Name: "type3.UnmarshalEncapKey", Run: func(in []byte) bool {
 		k, err := type3.UnmarshalEncapKey(in)
 		if err == nil {
 			_ = k.Marshal()
 		}
 		return err == nil
-	}, Seeds: []bx.Seed{{"encapkey", w.W3.NameKeyWire, []bx.Field{{0, 1}, {1, 2}, {35, 2}, {37, 2}}}}})
+	}, Seeds: []bx.Seed{{Name: "encapkey", Msg: w.W3.NameKeyWire, Fields: []bx.Field{{0, 1}, {1, 2}, {35, 2}, {37, 2}}}}})
 
 	add(target{Name: "type1.FinalizeToken", Step: true, Run: func(in []byte) bool {
 		_, err := w.St1.FinalizeToken(in)
 		return err == nil
-	}, Seeds: []bx.Seed{{"response1", w.O1.Response, nil}}})
+	}, Seeds: []bx.Seed{{Name: "response1", Msg: w.O1.Response}}})
 	add(target{Name: "type2.FinalizeToken", Step: true, Run: func(in []byte) bool {
 		_, err := w.St2.FinalizeToken(in)
 		return err == nil
-	}, Seeds: []bx.Seed{{"response2", w.O2.Response, nil}}})
+	}, Seeds: []bx.Seed{{Name: "response2", Msg: w.O2.Response}}})
 	add(target{Name: "type3.FinalizeToken", Step: true, Run: func(in []byte) bool {
 		_, err := w.St3.FinalizeToken(in)
 		return err == nil
-	}, Seeds: []bx.Seed{{"response3", w.O3.Response, nil}}})
+	}, Seeds: []bx.Seed{{Name: "response3", Msg: w.O3.Response}}})
 	add(target{Name: "type5.FinalizeTokens", Step: true, Run: func(in []byte) bool {
 		_, err := w.St5.FinalizeTokens(in)
 		return err == nil
-	}, Seeds: []bx.Seed{{"response5", w.O5.Response, []bx.Field{{0, bx.VarintWidth(w.O5.Response)}}}}})
+	}, Seeds: []bx.Seed{{Name: "response5", Msg: w.O5.Response, Fields: []bx.Field{{0, bx.VarintWidth(w.O5.Response)}}}}})
 
 	bw := bx.VarintWidth(w.BatchReq)
 	add(target{Name: "batched.Request.Unmarshal+EvaluateBatch", Step: true, Run: func(in []byte) bool {
@@ -143,12 +183,12 @@ func targets(w *bx.World) []target {
 		_ = r.Marshal()
 		_, err := w.BIssuer.EvaluateBatch(r)
 		return err == nil
-	}, Seeds: []bx.Seed{{"batchrequest", w.BatchReq, []bx.Field{{0, bw}, {bw, 2}, {bw + 52, 2}}}}})
+	}, Seeds: []bx.Seed{{Name: "batchrequest", Msg: w.BatchReq, Fields: []bx.Field{{0, bw}, {bw, 2}, {bw + 52, 2}}}}})
 	rw := bx.VarintWidth(w.BatchResp)
 	add(target{Name: "batched.UnmarshalBatchedTokenResponses", Run: func(in []byte) bool {
 		_, err := batched.UnmarshalBatchedTokenResponses(in)
 		return err == nil
-	}, Seeds: []bx.Seed{{"batchresponse", w.BatchResp, []bx.Field{{0, rw}, {rw, 1}, {rw + 1, 2}, {rw + 3 + 145, 1}, {rw + 3 + 145 + 1, 2}}}}})
+	}, Seeds: []bx.Seed{{Name: "batchresponse", Msg: w.BatchResp, Fields: []bx.Field{{0, rw}, {rw, 1}, {rw + 1, 2}, {rw + 3 + 145, 1}, {rw + 3 + 145 + 1, 2}}}}})
 
 	newAtt := func() *type3.RateLimitedAttester {
 		c := px.NewMemCache()
@@ -158,36 +198,36 @@ func targets(w *bx.World) []target {
 	}
 	add(target{Name: "type3.VerifyRequest(blind=bytes)", Step: true, StrL: 3, Run: func(in []byte) bool {
 		return type3.NewRateLimitedAttester(px.NewMemCache()).VerifyRequest(w.Req3, in, w.O3.ClientKey, w.A3.AnonOrigin) == nil
-	}, Seeds: []bx.Seed{{"blind", w.A3.Blind, nil}}})
+	}, Seeds: []bx.Seed{{Name: "blind", Msg: w.A3.Blind}}})
 	add(target{Name: "type3.VerifyRequest(clientKey=bytes)", Step: true, Run: func(in []byte) bool {
 		return type3.NewRateLimitedAttester(px.NewMemCache()).VerifyRequest(w.Req3, w.A3.Blind, in, w.A3.AnonOrigin) == nil
-	}, Seeds: []bx.Seed{{"clientkey", w.O3.ClientKey, nil}}})
+	}, Seeds: []bx.Seed{{Name: "clientkey", Msg: w.O3.ClientKey}}})
 	add(target{Name: "type3.VerifyRequest(signature=bytes)", Step: true, Run: func(in []byte) bool {
 		r := w.Req3
 		r.Signature = in
 		return type3.NewRateLimitedAttester(px.NewMemCache()).VerifyRequest(r, w.A3.Blind, w.O3.ClientKey, w.A3.AnonOrigin) == nil
-	}, Seeds: []bx.Seed{{"signature", w.Req3.Signature, nil}}})
+	}, Seeds: append([]bx.Seed{{Name: "signature", Msg: w.Req3.Signature}}, rawPairs...)})
 	add(target{Name: "type3.VerifyRequest(requestKey=bytes)", Step: true, StrL: 3, Run: func(in []byte) bool {
 		r := w.Req3
 		r.RequestKey = in
 		return type3.NewRateLimitedAttester(px.NewMemCache()).VerifyRequest(r, w.A3.Blind, w.O3.ClientKey, w.A3.AnonOrigin) == nil
-	}, Seeds: []bx.Seed{{"requestkey", w.Req3.RequestKey, nil}}})
+	}, Seeds: []bx.Seed{{Name: "requestkey", Msg: w.Req3.RequestKey}}})
 	add(target{Name: "type3.FinalizeIndex(clientKey=bytes)", Step: true, Run: func(in []byte) bool {
 		_, err := newAtt().FinalizeIndex(in, w.A3.Blind, w.O3.BlindedReqKey, w.A3.AnonOrigin)
 		return err == nil
-	}, Seeds: []bx.Seed{{"clientkey", w.O3.ClientKey, nil}}})
+	}, Seeds: []bx.Seed{{Name: "clientkey", Msg: w.O3.ClientKey}}})
 	add(target{Name: "type3.FinalizeIndex(blind=bytes)", Step: true, StrL: 3, Run: func(in []byte) bool {
 		_, err := newAtt().FinalizeIndex(w.O3.ClientKey, in, w.O3.BlindedReqKey, w.A3.AnonOrigin)
 		return err == nil
-	}, Seeds: []bx.Seed{{"blind", w.A3.Blind, nil}}})
+	}, Seeds: []bx.Seed{{Name: "blind", Msg: w.A3.Blind}}})
 	add(target{Name: "type3.FinalizeIndex(blindedRequestKey=bytes)", Step: true, Run: func(in []byte) bool {
 		_, err := newAtt().FinalizeIndex(w.O3.ClientKey, w.A3.Blind, in, w.A3.AnonOrigin)
 		return err == nil
-	}, Seeds: []bx.Seed{{"blindedreqkey", w.O3.BlindedReqKey, nil}}})
+	}, Seeds: []bx.Seed{{Name: "blindedreqkey", Msg: w.O3.BlindedReqKey}}})
 	add(target{Name: "type3.FinalizeIndex(anonOrigin=bytes)", Step: true, StrL: 2, Run: func(in []byte) bool {
 		_, err := newAtt().FinalizeIndex(w.O3.ClientKey, w.A3.Blind, w.O3.BlindedReqKey, in)
 		return err == nil
-	}, Seeds: []bx.Seed{{"anon", w.A3.AnonOrigin, nil}}})
+	}, Seeds: []bx.Seed{{Name: "anon", Msg: w.A3.AnonOrigin}}})
 
 	add(target{Name: "quicwire.Consume*", Run: func(in []byte) bool {
 		_, n1 := quicwire.ConsumeVarint(in)
@@ -197,51 +237,51 @@ func targets(w *bx.World) []target {
 		_, n5 := quicwire.ConsumeUint32(in)
 		_, n6 := quicwire.ConsumeUint64(in)
 		return n1 >= 0 && n2 >= 0 && n3 >= 0 && n4 >= 0 && n5 >= 0 && n6 >= 0
-	}, Seeds: []bx.Seed{{"varintbytes", quicwire.AppendVarintBytes(nil, w.Challenge), []bx.Field{{0, 2}}}}})
+	}, Seeds: []bx.Seed{{Name: "varintbytes", Msg: quicwire.AppendVarintBytes(nil, w.Challenge), Fields: []bx.Field{{0, 2}}}}})
 
 	add(target{Name: "util.UnmarshalTokenKey", Run: func(in []byte) bool {
 		_, err := util.UnmarshalTokenKey(in)
 		return err == nil
-	}, Seeds: []bx.Seed{{"spki", w.SPKI, []bx.Field{{1, 3}, {5, 1}, {72, 3}}}}})
+	}, Seeds: []bx.Seed{{Name: "spki", Msg: w.SPKI, Fields: []bx.Field{{1, 3}, {5, 1}, {72, 3}}}}})
 
 	add(target{Name: "ecdsa.VerifyASN1", Step: true, Run: func(in []byte) bool {
 		return ecdsa.VerifyASN1(&w.EcKey.PublicKey, w.EcDigest, in)
-	}, Seeds: []bx.Seed{{"ecdsa-der", w.EcSig, []bx.Field{{1, 1}, {3, 1}}}}})
+	}, Seeds: append([]bx.Seed{{Name: "ecdsa-der", Msg: w.EcSig, Fields: []bx.Field{{1, 1}, {3, 1}}}}, derPairs...)})
 	add(target{Name: "ecdsa.Verify(r||s=bytes)", Step: true, Run: func(in []byte) bool {
 		h := len(in) / 2
 		r := new(big.Int).SetBytes(in[:h])
 		s := new(big.Int).SetBytes(in[h:])
 		return ecdsa.Verify(&w.EcKey.PublicKey, w.EcDigest, r, s)
-	}, Seeds: []bx.Seed{{"ecdsa-raw", w.Req3.Signature, nil}}})
+	}, Seeds: append([]bx.Seed{{Name: "ecdsa-raw", Msg: w.Req3.Signature}}, rawPairs...)})
 	add(target{Name: "ecdsa.Verify(digest=bytes)", Step: true, Run: func(in []byte) bool {
 		return ecdsa.VerifyASN1(&w.EcKey.PublicKey, in, w.EcSig)
-	}, Seeds: []bx.Seed{{"digest", w.EcDigest, nil}}})
+	}, Seeds: []bx.Seed{{Name: "digest", Msg: w.EcDigest}}})
 	_ = p384
 
 	add(target{Name: "ed25519.Verify(sig=bytes)", Step: true, Run: func(in []byte) bool {
 		return ed25519.Verify(w.EdPub, w.EdMsg, in)
-	}, Seeds: []bx.Seed{{"ed-sig", w.EdSig, nil}}})
+	}, Seeds: []bx.Seed{{Name: "ed-sig", Msg: w.EdSig}}})
 	add(target{Name: "ed25519.Verify(key32||msg=bytes)", Step: true, Run: func(in []byte) bool {
 		if len(in) < 32 {
 			return false // a key that is not 32 bytes panics by contract (like the standard library); out of scope
 		}
 		return ed25519.Verify(ed25519.PublicKey(in[:32]), in[32:], w.EdSig)
-	}, Seeds: []bx.Seed{{"ed-key-msg", append(append([]byte{}, w.EdPub...), w.EdMsg...), nil}}})
+	}, Seeds: []bx.Seed{{Name: "ed-key-msg", Msg: append(append([]byte{}, w.EdPub...), w.EdMsg...)}}})
 	add(target{Name: "ed25519.BlindPublicKeyWithContext(key=bytes)", Step: true, Run: func(in []byte) bool {
 		bl := append([]byte(nil), w.A3.AnonOrigin...)
 		_, err := ed25519.BlindPublicKeyWithContext(ed25519.PublicKey(in), bl[:32:32], []byte("ctx"))
 		return err == nil
-	}, Seeds: []bx.Seed{{"ed-key", w.EdPub, nil}}})
+	}, Seeds: []bx.Seed{{Name: "ed-key", Msg: w.EdPub}}})
 	add(target{Name: "ed25519.UnblindPublicKeyWithContext(key=bytes)", Step: true, Run: func(in []byte) bool {
 		bl := append([]byte(nil), w.A3.AnonOrigin...)
 		_, err := ed25519.UnblindPublicKeyWithContext(ed25519.PublicKey(in), bl[:32:32], []byte("ctx"))
 		return err == nil
-	}, Seeds: []bx.Seed{{"ed-key", w.EdPub, nil}}})
+	}, Seeds: []bx.Seed{{Name: "ed-key", Msg: w.EdPub}}})
 	add(target{Name: "ed25519.BlindPublicKeyWithContext(blind,ctx=bytes)", Step: true, StrL: 3, Run: func(in []byte) bool {
 		h := len(in) / 2
 		_, err := ed25519.BlindPublicKeyWithContext(w.EdPub, in[:h:h], in[h:])
 		return err == nil
-	}, Seeds: []bx.Seed{{"ed-blind-ctx", append(append([]byte{}, w.A3.AnonOrigin...), []byte("context string, 32 bytes long ..")...), nil}}})
+	}, Seeds: []bx.Seed{{Name: "ed-blind-ctx", Msg: append(append([]byte{}, w.A3.AnonOrigin...), []byte("context string, 32 bytes long ..")...)}}})
 
 	_ = oprf.SuiteP384
 	return ts
